@@ -189,7 +189,7 @@ def local_aliases(func):
             return chainlike(e.value)
         if isinstance(e, ast.Subscript) and not isinstance(e.slice, ast.Slice):
             return chainlike(e.value) and isinstance(e.slice, (ast.Name, ast.Constant, ast.BinOp, ast.Attribute, ast.Call))
-        if isinstance(e, ast.Call) and call_name(e) in ('len', 'ord') and len(e.args) == 1 and isinstance(e.func, ast.Name):
+        if isinstance(e, ast.Call) and call_name(e) in ('len', 'ord', 'str') and len(e.args) == 1 and isinstance(e.func, ast.Name):
             return chainlike(e.args[0])
         if isinstance(e, ast.Call) and call_name(e) == 'setdefault' and isinstance(e.func, ast.Attribute):
             return chainlike(e.func.value)
